@@ -184,6 +184,8 @@ def convert(priv, d, **opts):
         fh.write(priv.private_bytes(serialization.Encoding.PEM, serialization.PrivateFormat.PKCS8, serialization.NoEncryption()))
     o = dict(DEFAULTS)
     o.update(opts)
+    from .. import impl
+    impl.prefill(out)
     cmd_convert.main(input_file=inp, output_file=out, **o)
     with open(out, encoding="utf-8") as fh:
         return fh.read()
